@@ -246,6 +246,43 @@ let rec compose_value (seed : int) (read_all : bool) (data : byte list) (off : i
       else (CSkipped, 0, false)
     end
 
+(* hrec: the recursive decoder of the harness (every container member handed to a nested traversal,
+   scalars declined); buffers do not exist in what the model observes, so the Buffer argument is ignored *)
+let rec hrec_value (data : byte list) : int * bool * int =
+  match nextTokenType data with
+  | ((_, _), Some _) -> (0, false, 0)
+  | ((tt, _), None) ->
+    let tti = int_of_z tt in
+    if tti = 8 || tti = 6 then begin
+      let memo : (int, int * bool * int) Hashtbl.t = Hashtbl.create 16 in
+      let answer (c : call) =
+        let cp = int_of_z c.c_p in
+        (match Hashtbl.find_opt memo cp with
+         | Some r -> r
+         | None -> let r = hrec_value (drop cp data) in Hashtbl.replace memo cp r; r) in
+      let h : handler = fun calls ->
+        let (p, ok, _) = answer (List.hd calls) in
+        { h_pp = z_of_int p; h_err = (if ok then None else Some (z_of_int 1)); h_havoc = [] } in
+      let r = if tti = 6 then x_handleObjectValues data h [] else x_handleArrayValues data h [] in
+      (match r with
+       | MDone (p, None, s) ->
+         let n = List.fold_left (fun acc c -> let (_, _, k) = answer c in acc + 1 + k) 0 s.s_calls in
+         (int_of_z p, true, n)
+       | MDone (p, Some _, _) -> (int_of_z p, false, 0)
+       | _ -> raise Abn)
+    end else (0, true, 0)
+
+let run_hrec (f : string array) : string =
+  let d = unhex f.(1) in
+  (* the evaluation is quadratic in the nesting depth: large documents are left to the comparison of the
+     implementation with itself without a Buffer (the oracle of C14) *)
+  if List.length d > 4000 then "-" else
+  try
+    (match hrec_value d with
+     | (_, false, _) -> "err"
+     | (p, true, n) -> Printf.sprintf "ok %d %d" p n)
+  with Abn -> "abn # model"
+
 let run_compose (f : string array) : string =
   let d = unhex f.(1) in
   let seed = int_of_string f.(2) in
@@ -273,6 +310,7 @@ let run_case (f : string array) : string =
         | None -> "abn # model")
      | o -> failwith ("bad frame op " ^ o))
   | "hist" -> run_hist f
+  | "hrec" -> run_hrec f
   | "strhist" ->
     let buf = ref (if f.(1) = "-1" then None else Some []) in
     let target = ref (List.map (fun c -> zb (z_of_int (Char.code c))) (List.init 14 (String.get "initial-target"))) in
